@@ -561,3 +561,32 @@ def rule_skip_licence_intact(ctx):
                           where=f"{f.module.relpath}:{c.lineno}", operand=c.func.attr))
     r.floor(n, 1, "state-rewriting calls between sweeps in DMRG.solve")
     return r
+
+
+def rule_truncating_update_normalised(ctx):
+    r = RuleResult(
+        "truncating-update-normalised",
+        "DMRG's two-site update splits the normalised local ground state under the sweep's bond cap: a truncating split lowers the norm, and "
+        "the energy recorded afterwards is <psi|H|psi> of the state as it stands. The split therefore renormalises the kept singular values "
+        "(renorm=True) or the routine divides the norm out on every (open and periodic) path — otherwise the reported energy is not the "
+        "energy of the normalised state that is returned",
+    )
+    f = ctx.prog.func("quimb.tensor.tn1d.dmrg", "DMRG._update_local_state_2site")
+    if f is None:
+        raise AnalysisError("truncating-update-normalised: DMRG._update_local_state_2site not found")
+    splits = [c for c in ast.walk(f.node) if isinstance(c, ast.Call) and isinstance(c.func, ast.Attribute) and c.func.attr == "split"
+              and any(k.arg is None for k in c.keywords)]
+    if not splits:
+        raise AnalysisError("truncating-update-normalised: the truncating split of the two-site update was not found")
+    where = f"{f.module.relpath}:{splits[0].lineno}"
+    renorm = any(k.arg == "renorm" and const_value(k.value, None) not in (None, False, 0) for c in splits for k in c.keywords)
+    # an unconditional division by a norm (top-level statement of the routine, not under `if self.cyclic`)
+    divides = any(isinstance(st, (ast.Assign, ast.AugAssign, ast.Expr)) and any(isinstance(b, ast.BinOp) and isinstance(b.op, ast.Div) and any(
+        isinstance(y, ast.Name) and "norm" in y.id.lower() for y in ast.walk(b.right)) for b in ast.walk(st)) for st in f.node.body)
+    if renorm or divides:
+        r.ok("DMRG._update_local_state_2site", sample={"after truncation": "renorm=True in the split" if renorm else "norm divided out unconditionally"})
+    else:
+        r.bad(Finding("truncating-update-normalised", "DMRG._update_local_state_2site",
+                      f"`{src_of(splits[0])[:50]}...` truncates without renormalising and the norm is only divided out for periodic systems: after a truncating update the "
+                      "recorded energy is <psi|H|psi> of a state with <psi|psi> < 1", where=where, operand="renorm"))
+    return r
